@@ -1,7 +1,7 @@
 (** Property C20 — built-in tests decide exactly their documented predicate. *)
 From Coq Require Import String List ZArith Bool Ascii.
 From Coq Require Import Floats.SpecFloat.
-From Zog Require Import Model.Val Model.Preds Proofs.PredsP.
+From Zog Require Import Model.Val Model.Preds Proofs.PredsP Proofs.EmailP.
 Import ListNotations.
 Open Scope string_scope.
 
@@ -83,6 +83,23 @@ Theorem C20_uuid : forall s, btest_ok BUUID (DStr s) = true <->
     s = h1 ++ "-" ++ h2 ++ "-" ++ h3 ++ "-" ++ h4 ++ "-" ++ h5.
 Proof. exact uuid_iff. Qed.
 Print Assumptions C20_uuid.
+
+(** Email: local@label(.label)* — a non-empty local part over the allowed characters, then one or
+    more dot-separated labels *)
+Theorem C20_email : forall s, btest_ok BEmail (DStr s) = true <->
+  exists loc labels, s = loc ++ String "@" (join_with "." labels)
+    /\ loc <> "" /\ all_bytes is_local_char loc = true
+    /\ labels <> [] /\ Forall (fun l => label_ok l = true) labels.
+Proof. exact email_iff. Qed.
+Print Assumptions C20_email.
+(** a label: 1..63 alphanumerics or hyphens, neither starting nor ending with a hyphen *)
+Theorem C20_email_label : forall l, label_ok l = true <->
+  1 <= String.length l <= 63
+  /\ all_bytes (fun a => is_alnum a || Ascii.eqb a "-"%char) l = true
+  /\ (exists a r, l = String a r /\ is_alnum a = true)
+  /\ (exists a, get (String.length l - 1) l = Some a /\ is_alnum a = true).
+Proof. exact label_iff. Qed.
+Print Assumptions C20_email_label.
 
 Theorem C20_time_after : forall a b, nsec_ok a -> nsec_ok b -> (btest_ok (BTimeAfter b) (DTime a) = true <-> (instant a > instant b)%Z).
 Proof. exact time_after_iff. Qed.
